@@ -213,6 +213,15 @@ theorem snap_grid_x_nonfinite_rejected (x0 x1 res : XF) (off : Option XF) (tol :
       obtain ⟨e, he⟩ := nf_snapEdge_nonfin _ _ res tol h'
       exact ⟨e, by rw [he]; rfl⟩
 
+/-- A `nan` / infinite anchor fraction fails the `0 <= off_pix < 1` assertion. -/
+theorem snap_grid_x_nonfinite_anchor_rejected (x0 x1 res op tol : XF) (h : isFinite op = false) :
+    snapGridX x0 x1 res (some op) tol = .error .assertion := by
+  cases op with
+  | fin q => simp [isFinite] at h
+  | pinf => simp [snapGridX, NF.le, NF.lt]
+  | ninf => simp [snapGridX, NF.le, NF.lt]
+  | nan => simp [snapGridX, NF.le, NF.lt]
+
 /-! ## `snap_scale`, `snap_affine` -/
 
 /-- **A non-finite scale passes through `snap_scale` untouched**, whatever the tolerance (finite or not). -/
